@@ -181,16 +181,18 @@ func TestVerifC01(t *testing.T) {
 		for di := range docs {
 			cases = append(cases, cdesc{"embedded-single", 800, di, 0, 0})
 		}
-		for _, m := range []int{700, 750, 900, 950, 1000} {
-			for k := 0; k < 60; k++ {
+		for _, m := range []int{700, 750, 900, 950, 1000, 850, 870, 780, 915} {
+			for k := 0; k < 40; k++ {
 				cases = append(cases, cdesc{"embedded-single", m, rr.Intn(len(docs)), k, 0})
 			}
 		}
 		for k := 0; k < 40; k++ {
 			cases = append(cases, cdesc{"embedded-multi", []int{700, 800, 900, 1000}[k%4], rr.Intn(len(docs)), k, 0})
 		}
-		for k := 0; k < 6; k++ {
-			cases = append(cases, cdesc{"synthetic", []int{700, 800, 900, 1000, 750, 950}[k%6], 0, k, 30})
+		// thresholds whose quotient t/(1-t) has a fractional part (0.85 -> 5.67, 0.78 -> 3.55,
+		// 0.915 -> 10.76, 0.87 -> 6.69, 0.73 -> 2.70) next to the round ones
+		for k, m := range []int{700, 800, 900, 1000, 750, 950, 850, 780, 915, 870, 730, 895} {
+			cases = append(cases, cdesc{"synthetic", m, 0, k, 24})
 		}
 		cases = append(cases, cdesc{"mixed", 800, 0, 0, 12})
 	} else {
@@ -321,7 +323,13 @@ func TestVerifC01(t *testing.T) {
 				} else {
 					c = NewClassifier(thr)
 				}
-				for _, d := range sd {
+				// the corpus grows while the classifier is already in use: half of the
+				// documents are added after the first Match calls
+				for i, d := range sd {
+					if i == len(sd)/2 {
+						c.Match([]byte(vOOVBlock(r, 2)))
+						c.Match([]byte(sd[0].text))
+					}
 					seg := strings.Split(d.key, "/")
 					c.AddContent(seg[0], seg[1], seg[2], []byte(d.text))
 				}
